@@ -12,7 +12,7 @@ class Prop(PropBase):
     prop_files = ['Props/Properties_C16.v']
     rule = ('RSM1_JUMBO driver reading pcap files through InputPcapJumbo/Jumbo (real threads, ASan): trains of 2..45 fragments (sizes multiples of 8, totals up to 65535), '
             'unfragmented datagrams, IP identification 0 and repeated ids, IP headers with options, lost / duplicated / reordered fragments, interleaved trains of two ids, '
-            'non-IPv4 and non-UDP frames in between, foreign destination ports; compared: the exact payload bytes handed to the decoder (packet callback) in order; '
+            'non-IPv4 and non-UDP frames in between, unfragmented datagrams inside a train, records cut short by the snap length, foreign destination ports; compared: the exact payload bytes handed to the decoder (packet callback) in order; '
             'non-trivial = scenario with >= 1 reassembled datagram')
     explanation = 'C16_T1..T5 (Coq: unfragmented pass-through; in-order train delivers concat minus UDP header to the header\'s port, any number/sizes; ignored frames inert; fill level bounded; id 0 regression) + correspondence'
     assumptions = ['libpcap reads the generated capture files faithfully']
@@ -51,7 +51,7 @@ class Prop(PropBase):
                         off += fs
                     if len(train) > 400:
                         train = train[:2]      # keep files small: an unfinished train
-                mode = rng.choice(['ok', 'ok', 'ok', 'lose', 'dup', 'swap', 'inter', 'junk'])
+                mode = rng.choice(['ok', 'ok', 'ok', 'lose', 'dup', 'swap', 'inter', 'junk', 'cut', 'plain_inside'])
                 if mode == 'lose' and len(train) > 1:
                     del train[rng.randrange(len(train))]
                 elif mode == 'dup' and len(train) > 1:
@@ -70,13 +70,27 @@ class Prop(PropBase):
                             else:
                                 mix.append(b.pop(0))
                         train = mix
+                elif mode == 'cut':
+                    # a record cut short by the snap length (caplen < len): the frame's bytes were never all seen, so neither it
+                    # nor the datagram it belongs to may be delivered
+                    i = rng.randrange(len(train)); f = train[i]
+                    train[i] = (len(f), f[:rng.choice([60, 96, max(43, len(f) - 1), max(43, len(f) - 8), max(43, len(f) // 2)])])
+                elif mode == 'plain_inside' and len(train) > 1:
+                    # an unfragmented datagram (DIFOP-like, MSOP-port or foreign-port) recorded between the fragments of a train:
+                    # it is delivered at once and the train completes all the same
+                    other = udp_frame(rng.choice([b'\xa5\xff', b'\x55\xaa']) + bytes(rng.randrange(256) for _ in range(rng.choice([30, 254, 1000]))),
+                                      rng.choice([difop, msop, base + 5]), ip_id=rng.choice(ids + [ipid]))
+                    train.insert(rng.randrange(1, len(train)), other)
                 elif mode == 'junk':
                     train.insert(rng.randrange(len(train) + 1), rng.choice([udp_frame(b'x' * 20, msop, ethertype=0x0806), udp_frame(b'y' * 20, msop, proto=6),
                                                                              udp_frame(b'z' * 30, msop, ipv6=True), udp_frame(b'', msop, ip_id=999, frag_off=800, more=True, raw_ip_payload=bytes(64))]))
                 frames.append(train)
             for tr in frames:
                 for f in tr:
-                    s.lines.append(f'F 0 {len(f)} {f.hex()}')
+                    if isinstance(f, tuple):
+                        s.lines.append(f'F 0 {f[0]} {f[1].hex()}')
+                    else:
+                        s.lines.append(f'F 0 {len(f)} {f.hex()}')
             s.lines.append('GO 0')
             scn.append(s.text(residual=()))
         return [('jumbo', '\n'.join(scn) + '\n')]
